@@ -14,6 +14,8 @@ Verdict(r) ==
          ELSE IF r.starts = 1 /\ r.alarm \in (r.L - 2)..r.L THEN "ok" ELSE "bad"
     [] r.e = "Kill" ->
          IF (IF "stubborn" \in DOMAIN r /\ r.stubborn THEN StubbornKillOk(r.L, r.W, r.wallms, r.jsig) ELSE KillOk(r.L, r.W, r.wallms, r.jsig, r.jexit)) THEN "ok" ELSE "bad"
+    [] r.e = "KillLocked" ->
+         IF LockedKillOk(r.L, r.W, r.rc, r.jentries, r.jsig, r.jexit) THEN "ok" ELSE "bad"
     [] r.e = "Req" ->
          (* one request with several VTODOs run by one echsx process: the executor survives and every task *)
          (* meets its own contract, whatever happened to the tasks before it                                *)
